@@ -173,9 +173,36 @@ def cases(tier, seed):
                 continue
             for kind in ("ML", "BAS", "ASC"):
                 yield {"k": "read", "chain": list(ch), "end": endname, "slen": stream_len, "kind": kind, "second": None}
+    # directories with holes: K = a KILLed entry (first byte $00), U = a never-used entry ($FF), F = a live file
+    for layout in HOLE_LAYOUTS:
+        yield {"k": "holes", "layout": layout}
     for ch in [c for c in itertools.permutations(CHAIN_SET[:6], 2)]:
         other = [g for g in CHAIN_SET if g not in ch][:2]
         yield {"k": "read", "chain": list(ch), "end": "strad4", "slen": 2304 + 4, "kind": "ML", "second": other}
+
+
+HOLE_LAYOUTS = ["KF", "UF", "FKF", "FUF", "KKF", "KUF", "UKF", "FKKF", "FUUUF", "KFKFK", "FFKFF", "K" * 70 + "FF", "F" + "K" * 70 + "F", "U" * 71 + "F",
+                "FK" * 36]
+
+
+def holes_image(layout):
+    """independent writer: one small file per F at the slot of its letter, KILLed / unused entries in between"""
+    files, specs, killed = [], [], []
+    g = 0
+    for slot, ch in enumerate(layout):
+        if ch == "K":
+            killed.append(slot)
+        elif ch == "F":
+            kind = ("ML", "BAS", "ASC")[len(files) % 3]
+            t, d = KINDS[kind]
+            n = 40 + 3 * len(files)
+            data = C.pattern(n, "ramp7")
+            nm = "H{}".format(slot)
+            files.append({"name": nm, "ext": "BIN", "type": t, "dtype": d, "slot": slot, "chain": [g],
+                          "stream": dskfs.make_stream(stream_kind(kind), data, 0x2000 + slot, 0x2100 + slot)})
+            specs.append(C.spec(nm, "BIN", t, d, 0x2000 + slot if kind == "ML" else 0, 0x2100 + slot if kind == "ML" else 0, n, "ramp7"))
+            g += 1
+    return dskfs.write(files, killed=killed), specs
 
 
 def order_by_name(name):
@@ -204,6 +231,9 @@ def cell_of(case):
     if case["k"] == "clist":
         fs = case["files"]
         return "clist|{}|{}|{}".format(",".join(kind_of(s) for s in fs) or "none", ",".join(lenclass(s) for s in fs) or "none", case["fill"])
+    if case["k"] == "holes":
+        lay = case["layout"]
+        return "read.holes|{}".format(lay if len(lay) <= 12 else "{}x{}..{}".format(lay[:2], len(lay), lay[-2:]))
     if case["k"] == "frag":
         return "frag|base{}|{}|{}".format(case["base"], lenclass(case["files"][0]), case["fill"])
     if case["k"] == "write" and len(case["files"]) > 4:
@@ -330,6 +360,9 @@ def check_case(case):
             specs = case["files"]
         elif case["k"] == "frag":
             img, specs = build_frag(case)
+        elif case["k"] == "holes":
+            img, specs = holes_image(case["layout"])
+            assert not dskfs.fsck(img), dskfs.fsck(img)
         else:
             img, specs = read_case_image(case)
             assert not dskfs.fsck(img), dskfs.fsck(img)
@@ -370,7 +403,7 @@ def check_case(case):
 def describe(tier):
     return {
         "alphabet": "file kinds ML/BASIC/ASCII/DATA (+ the four other type/flag combinations at 8 lengths) x lengths {} x content patterns x names {} x extensions {} x addresses; "
-                    "add/list interleavings on ONE DiskFile object; file_util --list (printed name, extension, types, addresses, length) on every list of <= 2 files and every kind; a file added to 6 pre-existing fragmented images (independent writer; chains such as 5>67>20, "
+                    "directories with KILLed ($00) and never-used ($FF) entries before and between live ones (15 layouts); add/list interleavings on ONE DiskFile object; file_util --list (printed name, extension, types, addresses, length) on every list of <= 2 files and every kind; a file added to 6 pre-existing fragmented images (independent writer; chains such as 5>67>20, "
                     "66>0, 67..41 descending) x 6 lengths x 4 fill orders; 12-symbol file "
                     "alphabet for lists; 72 fill orders (default, identity, reverse, 67 rotations, odd-then-even, even-odd descending); read side: "
                     "all ordered chains of length <= 3 over granules {} x stream ends (mid-granule, exact, straddling by -1/+1/+4, two granules) "
